@@ -733,7 +733,12 @@ func Crashed(f func()) (crashed bool) {
 // dateutil.SystemNow in harnesses that set the time themselves.
 var Clock int64
 
-func ClockVar() int64 { return Clock }
+func ClockVar() int64 {
+	if ClockIsExact() {
+		return ClockNow() // a harness that runs a real polling loop switched to the exact clock
+	}
+	return Clock
+}
 
 // Skip is the stub target for background loops that the harness drives itself
 // (`//vf:stub (*pkg.T).run Skip`): natively the method returns immediately.
